@@ -95,6 +95,10 @@ pub struct DeCase {
     /// what the format's `is_human_readable()` reports
     #[serde(default = "yes")]
     pub human_readable: bool,
+    /// typed self-describing format: a seq/tuple request on a stored map (or a map request on a
+    /// stored sequence) is refused by the format; struct and any requests take either
+    #[serde(default)]
+    pub typed_requests: bool,
 }
 
 fn yes() -> bool {
@@ -110,23 +114,27 @@ pub struct Delivery {
     pub fault: Option<CallFault>,
     pub honour_fields: bool,
     pub human_readable: bool,
+    pub typed_requests: bool,
+    pub expect_struct_name: Option<&'static str>,
 }
 
 impl Delivery {
     pub fn clean(mode: Mode) -> Self {
-        Delivery { mode, hint: Hint::Exact, strict_end: true, fault: None, honour_fields: false, human_readable: true }
+        Delivery { mode, hint: Hint::Exact, strict_end: true, fault: None, honour_fields: false, human_readable: true, typed_requests: false, expect_struct_name: None }
     }
     fn run<'de>(&self, entries: &'de [Entry]) -> DeRun<'de> {
         let mut run = DeRun::new(entries, self.mode, self.hint, self.strict_end, self.fault);
         run.honour_fields = self.honour_fields;
         run.human_readable = self.human_readable;
+        run.typed_requests = self.typed_requests;
+        run.expect_struct_name = self.expect_struct_name.map(|s| s.to_string());
         run
     }
 }
 
 impl DeCase {
     pub fn delivery(&self) -> Delivery {
-        Delivery { mode: self.mode, hint: self.hint, strict_end: self.strict_end, fault: self.access_fault, honour_fields: self.honour_fields, human_readable: self.human_readable }
+        Delivery { mode: self.mode, hint: self.hint, strict_end: self.strict_end, fault: self.access_fault, honour_fields: self.honour_fields, human_readable: self.human_readable, typed_requests: self.typed_requests, expect_struct_name: None }
     }
 }
 
@@ -799,6 +807,9 @@ pub fn execute(c: &DeCase) -> LegReport {
         rep.probes.hit("de_format_honours_fields_hint");
     }
     rep.probes.hit(if c.human_readable { "de_format_human_readable" } else { "de_format_binary" });
+    if c.typed_requests {
+        rep.probes.hit("de_format_typed_requests");
+    }
     // model cross-check: hand model vs serde derive (which asks for a struct and so
     // gives the `fields` hint), where both are defined
     let expect = model(&entries, &dl, true);
@@ -1000,7 +1011,7 @@ pub fn execute(c: &DeCase) -> LegReport {
         let clean = DeCase { faults: vec![], access_fault: None, kinds: vec![KeyKind::Str], ..c.clone() };
         if clean.mode != Mode::Scalar {
             let es = derive_stream(&clean);
-            match run_twofloat(&es, &Delivery { honour_fields: c.honour_fields, human_readable: c.human_readable, ..Delivery::clean(clean.mode) }) {
+            match run_twofloat(&es, &Delivery { honour_fields: c.honour_fields, human_readable: c.human_readable, typed_requests: c.typed_requests, ..Delivery::clean(clean.mode) }) {
                 Ok(DeOutcome { result: Ok((h, l)), .. }) if h == c.hi && l == c.lo => rep.probes.hit("recovery_ok"),
                 Ok(o) => rep.violations.push(viol(
                     "RECOVERY_FAILED",
@@ -1129,7 +1140,7 @@ pub fn generate(r: &mut Rng, hi: u64, lo: u64, other: (u64, u64)) -> DeCase {
     };
     let strict_end = r.chance(2, 3);
     let honour_fields = mode == Mode::Map && r.chance(1, 5);
-    let mut c = DeCase { hi, lo, mode, lo_first, kinds, faults: vec![], hint, strict_end, access_fault: None, honour_fields, human_readable: !r.chance(1, 4) };
+    let mut c = DeCase { hi, lo, mode, lo_first, kinds, faults: vec![], hint, strict_end, access_fault: None, honour_fields, human_readable: !r.chance(1, 4), typed_requests: r.chance(1, 3) };
     if r.chance(35, 100) {
         return c; // fault-free delivery
     }
@@ -1154,7 +1165,13 @@ pub fn generate(r: &mut Rng, hi: u64, lo: u64, other: (u64, u64)) -> DeCase {
                     name: crate::vocab::unknown_name(r),
                     slot: if r.bool() { Slot::F64(0) } else { rand_slot(r) },
                 },
-                _ => StorageFault::RenameKey { entry: r.usize_below(2), name: crate::vocab::unknown_name(r) },
+                _ => {
+                    let entry = r.usize_below(2);
+                    // half of the renames are near-miss spellings of the key that is being replaced
+                    let key = if (entry == 0) != (c.lo_first && c.mode == Mode::Map) { "hi" } else { "lo" };
+                    let name = if r.bool() { crate::vocab::decorated(r, key) } else { crate::vocab::unknown_name(r) };
+                    StorageFault::RenameKey { entry, name }
+                }
             }),
             1 | 2 if fam_word => Some(if r.chance(1, 3) {
                 let bit = match r.below(4) {
@@ -1235,6 +1252,7 @@ pub fn shrink(c: &DeCase) -> Vec<DeCase> {
     push(DeCase { lo_first: false, ..c.clone() });
     push(DeCase { honour_fields: false, ..c.clone() });
     push(DeCase { human_readable: true, ..c.clone() });
+    push(DeCase { typed_requests: false, ..c.clone() });
     // shrink fault parameters
     for (i, f) in c.faults.iter().enumerate() {
         let mut alts: Vec<StorageFault> = Vec::new();
